@@ -45,6 +45,10 @@ def run(tier: str) -> int:
     for i in range(n_cfg):
         cfg = twins.random_config(rng, rl=(i % 4 == 3), heavy=(i % 2 == 0))
         vs = VARIANTS if tier == "thorough" else [VARIANTS[0], VARIANTS[4 if i % 2 else 1]] + rng.sample(VARIANTS[1:], 2)
+        if cfg["kind"] == "rl":
+            if VARIANTS[5] not in vs:
+                vs = vs + [VARIANTS[5]]      # the agent built with another seed
+            cfg["eps"] = 1.0 if i % 8 == 3 else 0.3      # an agent that draws from its generator at every decision
         jobs.append((cfg, vs, str(REPO)))
     # the number of jobs against every kind of model (plain, single-precision output, overwriting its argument) and every loss
     kinds = [(f32, scr, loss) for f32 in (False, True) for scr in (False, True) for loss in twins.LOSSES]
@@ -71,12 +75,29 @@ def run(tier: str) -> int:
     hev = twins.fresh_map(twins._c01_history_worker, hist_jobs, procs=6)  # noqa: SLF001
     for k, cfg in enumerate(hist_cfgs):
         results.append({"cfg": cfg, "ev": hev[2 * k] + hev[2 * k + 1], "variants": [{"process": "fresh"}, {"process": "after-other-calibrations"}]})
+    # one trace per (reference execution, variant) pair: a variant that fails for a known reason must not hide the others
+    pairs = []
+    for r in results:
+        segs, cur = [], []
+        for e in r["ev"]:
+            if e["e"] == "variant" and cur:
+                segs.append(cur)
+                cur = []
+            cur.append(e)
+        segs.append(cur)
+        for k in range(1, len(segs)):
+            pairs.append({"cfg": r["cfg"], "ev": segs[0] + segs[k], "variants": [r["variants"][0], r["variants"][k]] if len(r["variants"]) > k else r["variants"]})
+        if len(segs) == 1:
+            pairs.append({"cfg": r["cfg"], "ev": segs[0], "variants": r["variants"][:1]})
+    n_exec = sum(len(r["variants"]) for r in results)
+    n_cfg = len(results)
+    results = pairs
     doc = {"traces": [{"ev": r["ev"]} for r in results]}
     res = tlc.validate("Observable", "Observable.cfg", doc)
     chk.add_validation(res)
-    chk.evaluations = len(traces) + sum(len(r["variants"]) for r in results)
-    chk.extra["builtin_configurations"] = len(results)
-    chk.extra["builtin_executions"] = sum(len(r["variants"]) for r in results)
+    chk.evaluations = len(traces) + n_exec
+    chk.extra["builtin_configurations"] = n_cfg
+    chk.extra["builtin_executions"] = n_exec
     chk.extra["distinct_nontrivial"] = len({repr(r["cfg"]) for r in results}) + len({repr(t["script"]["cfg"]) for t in traces})
     for r in results[:3]:
         chk.sample({"lineup": r["cfg"]["lineup"], "kind": r["cfg"]["kind"], "loss": r["cfg"]["loss"], "E": r["cfg"]["E"],
